@@ -193,7 +193,7 @@ class Built(Opaque):
 
     def m_truth(self, vm):
         self.touched.append("truth")
-        return vm.ctx.choice(2, "built-object-is-truthy") == 1
+        return False          # the adversarial case (an empty container-like object); no fork: every object would double the paths
 
 
 def h_objects():
